@@ -3,7 +3,7 @@
    The model (ExDefs.v) mirrors ex.c / lbuf.c / reg.c; the regex engine, the shell filter, the file
    system and the file name are arbitrary (universally quantified) parameters of every theorem. *)
 From Coq Require Import List NArith ZArith Bool.
-From NV Require Import Bytes ExDefs ExSpec ExProps ExRefine.
+From NV Require Import Bytes ExDefs ExSpec ExProps ExRefine ExAddr.
 Import ListNotations.
 Local Open Scope Z_scope.
 
@@ -74,9 +74,10 @@ Print Assumptions C06_marks_outside_kept.
    command without a name.
    What is SHARED between model and reference (and therefore not checked by this theorem): the cutting of a command
    line into address / command word / argument / text block (ex_loc ex_cmd ex_idx ex_arg ex_txt: pure functions of the
-   bytes) and the resolution of an address string, which the reference obtains by running ex_region on ITS state
-   (ref_region); the outcomes of ex_region are pinned by C06_resolve_bounds, and both are compared with the
-   independent Python reference editor by the correspondence run.
+   bytes) and of an address string into tokens (tok_addr).  The MEANING of an address is not shared: the reference resolves
+   it with ref_region, which C06_address_semantics proves equal to the token semantics spec_region of ExSpec.v
+   (and C06_resolve_bounds pins the outcomes).  The parsers are compared with the independent Python reference editor by
+   the correspondence run.
    C06_refines_spec_line is the induction step (one command line from ANY state, any pending return value) and
    C06_refines_spec_step the single command: "after every command" is these two read together with the script theorem. *)
 Theorem C06_refines_spec : forall rvalid rfind filter readfile curpath n fuel s r',
@@ -123,6 +124,21 @@ Theorem C06_ref_region : forall rvalid rfind loc s bad b e s1,
   ex_region rvalid rfind loc s = (bad, b, e, s1) -> ref_region rvalid rfind loc (abs s) = (bad, b, e, abs s1).
 Proof. exact region_abs. Qed.
 Print Assumptions C06_ref_region.
+
+(* ADDRESS RESOLUTION, independently of ex_region.  ExSpec.v cuts an address string into tokens (tok_addr: "%", nothing, or a
+   list of terms -- base . $ 'c /pat/ ?pat? number, offsets +n -n -- each followed by ";" "," or the end; only the walking
+   over the bytes follows the C code) and gives the tokens a meaning on the reference state (spec_region / sem_terms / sem_term /
+   sem_base / spec_search): a number n is row n-1, $ the last row, 'c the marked row, /pat/ (?pat?) the NEAREST matching row
+   strictly after (before) the current line without wrap-around (first_match over the lines after / the reversed lines
+   before), an empty pattern reuses the remembered pattern and direction, offsets add up, a term sets the end of the range
+   and the previous end becomes the beginning, ";" moves the current line, a term that designates no line or a line before
+   line 0 rejects the address, address 0 alone gives (0,0), and the final range must satisfy b < len, b <= e <= len.
+   The resolver the reference editor uses (ref_region, i.e. the model's ex_region on the reference state) IS this meaning,
+   for every address string and every state -- so with C06_ref_region the model's ex_region is specified by spec_region. *)
+Theorem C06_address_semantics : forall rvalid rfind loc r,
+  ref_region rvalid rfind loc r = spec_region rvalid rfind (tok_addr loc) r.
+Proof. exact region_spec. Qed.
+Print Assumptions C06_address_semantics.
 
 (* the per-command equations the reference is built from, given the resolved range [b,e) (older statement, kept:
    it shows each ExSpec.v function at work without the script machinery).  s1 is the state after the address was
@@ -189,3 +205,11 @@ Example C06_script_nonvacuous :
              exists t, ref_main_tr (fun _ => true) (fun _ _ _ => None) (fun _ _ => None) (fun _ => None) [] 20 20
                          (abs (init_st [97; 10; 98; 10; 99; 10]%N sc true)) = Some t /\ length t = 10%nat.
 Proof. eexists. split; [vm_compute; reflexivity | vm_compute; repeat split]. eexists. split; [reflexivity | reflexivity]. Qed.
+
+(* the tokens of `2;+1,/x/-1` and of `'a,$` *)
+Example C06_tokens :
+  tok_addr [50;59;43;49;44;47;120;47;45;49]%N =
+    ATerms [(mkterm (BNum 2) [], Some true); (mkterm BCur [1], Some false); (mkterm (BPat 47 (Some [120%N])) [-1], None)] /\
+  tok_addr [39;97;44;36]%N = ATerms [(mkterm (BMark 97) [], Some false); (mkterm BLast [], None)] /\
+  tok_addr [37]%N = APercent /\ tok_addr [] = AEmpty.
+Proof. vm_compute. repeat split. Qed.
